@@ -9,7 +9,10 @@ PROP = {'engine': 'stack',
          'absent/JSON/UTF-8 text; trace header; runtime outcome per invocation ok/error/re-poll/crash/stall/oversize response; 0-1 extension. Oracle '
          'over the recorded history: bytes, id freshness, ARN, client context, deadline bracket at the runtime; exact expected body/status at the '
          'caller. Non-trivial: >=2 different payload lengths on one host, or an empty / non-UTF-8 / >=1MiB payload, or an invocation following a '
-         'failed, timed-out or oversized one. Distinct = distinct case hash.',
+         'failed, timed-out or oversized one. Distinct = distinct case hash. Later additions: `knock` (while an invocation is with the runtime a '
+         'second caller tries the invoke endpoint and is refused; the invocation must go on untouched); a slow first initialisation (400-900 ms) '
+         'with the rule that the deadline is arrival + timeout however long the invocation waited (applied to events of at most 256 KiB, whose '
+         'upload is negligible).',
  'assumptions': ['fake process supervisor (DESIGN 3.4)', 'client contexts restricted to strings an HTTP header can carry'],
  'level_text': 'random search over invocation sequences against the real composed stack (front end -> interop server -> orchestrator -> Runtime API '
                '-> scripted runtime and back) with an exact byte/identity oracle on the recorded history. Exploration: no counterexample among the '
